@@ -60,11 +60,14 @@ Record world := World {
 Record request := Req {
   q_role : role;                 (* global role (refreshed from _internal:users) *)
   q_user : N;
-  q_session : bool;              (* request carries a session id *)
-  q_cur : kgname;                (* session-bound KG, or the KG given explicitly *)
+  q_bound : option kgname;       (* the KG the request's session is bound to (None: no session id) *)
+  q_cur : kgname;                (* the KG given explicitly with the request, else the session's *)
   q_whole : option stmt;         (* parse_statement(whole trimmed text) *)
   q_lines : list (option stmt);  (* parse_statement of every non-empty logical line *)
 }.
+
+Definition q_session (req : request) : bool :=
+  match q_bound req with Some _ => true | None => false end.
 
 (* ---------------------------------------------------------------- association lists *)
 Fixpoint lookup {A} (g : N) (l : list (N * A)) : option A :=
@@ -337,7 +340,7 @@ Definition direct_effect (s : stmt) (w : world) : world :=
 (* what execute_program does with the result of query_program *)
 Definition finish (req : request) (w : world) (st : rstate) : result :=
   let r := q_role req in
-  let bound0 := if q_session req then Some (q_cur req) else None in
+  let bound0 := q_bound req in
   let sw := if r_query st then None else r_switched st in
   let bound1 := match sw with
                 | Some g => if q_session req then Some g else None
@@ -366,8 +369,7 @@ Definition finish (req : request) (w : world) (st : rstate) : result :=
                 end in
   Result Ran (World (r_kgs st) acls2) bound2 (r_trace st).
 
-Definition bound_before (req : request) : option kgname :=
-  if q_session req then Some (q_cur req) else None.
+Definition bound_before (req : request) : option kgname := q_bound req.
 
 Definition via_query_program (req : request) (w : world) : result :=
   match lookup (q_cur req) (w_kgs w) with
